@@ -408,7 +408,7 @@ func (env *Env) callSpec(x *ast.CallExpr, fn *types.Func, spec *FuncSpec, recvEx
 	}
 	postEnv := &Env{c: c, st: env.st, names: post, old: oldEnv, pkg: calleePkg, foreign: true}
 	for _, en := range spec.Ensures {
-		env.st.Assume(postEnv.evalSpecBool(en))
+		env.st.AssumeFor(postEnv.evalSpecBool(en), en)
 	}
 	// write back modified pointees
 	for _, w := range wbs {
